@@ -93,6 +93,10 @@ def _get_world(wd, shape, fld, key, where, R, exp, lo, hi):
                 '%s: descriptor %s: result bit %d is %s, expected %s; witness buffer: %s'
                 % (where, fld['name'], i, B.fmt_term(B.to_bits(wd.ret, R)[i]), B.fmt_term(exp[i]), FC.fmt_env(wit)))
     if st == 'unknown':
+        ub = FC.ub_note({'notes': wd.notes})
+        if ub:
+            return ('violation', key + ':undefined-shift', '%s: descriptor %s: result bit %d is produced by undefined behaviour on '
+                    'this target: %s' % (where, fld['name'], info, ub))
         return ('undecided', key, '%s: descriptor %s: result bit %d undetermined' % (where, fld['name'], info))
     r = wd.regions[FC.PDU]
     if r.writes:
@@ -147,6 +151,10 @@ def _set_world(wd, shape, fld, key, where, P, lo, hi):
             if not B.is_unknown(a) and FC.same_under_pc(a, e):
                 continue
             if B.is_unknown(a):
+                ub = FC.ub_note({'notes': wd.notes})
+                if ub:
+                    return ('violation', key + ':undefined-shift', '%s: descriptor %s: octet %d bit %d is produced by undefined '
+                            'behaviour on this target: %s' % (where, fld['name'], oc, b, ub))
                 return ('undecided', key, '%s: descriptor %s: octet %d bit %d undetermined' % (where, fld['name'], oc, b))
             wit = FC.find_witness(a, e)
             if wit is None:
